@@ -65,6 +65,7 @@ type blkInfo struct {
 	keys   []uint64 // bloom keys: event from-address and key
 	class  *felt.Felt
 	txs    []*felt.Felt
+	slot   uint64 // value the block writes to slot 1 of contract 0x100 (0 = no storage write: no history entry)
 }
 
 func hexOf(f *felt.Felt) string {
@@ -122,6 +123,20 @@ func (w *world) opts() []blockchain.Option {
 	return []blockchain.Option{blockchain.WithRunningEventFilterInitializer(pruner.InitializeRunningEventFilter)}
 }
 
+// seqOpts: options of the block-building sequencers. Their running filter is never queried and its
+// content is irrelevant (the node under test is the follower), so it is initialised directly at the
+// right window instead of re-reading every header of the 8190-block base chain.
+func (w *world) seqOpts() []blockchain.Option {
+	return []blockchain.Option{blockchain.WithRunningEventFilterInitializer(func(d db.KeyValueStore) (*core.RunningEventFilter, error) {
+		next := uint64(0)
+		if h, err := core.GetChainHeight(d); err == nil {
+			next = h + 1
+		}
+		f := core.NewAggregatedFilter(next - next%W)
+		return core.NewRunningEventFilterHot(d, &f, next), nil
+	})}
+}
+
 func (w *world) newNode(store db.KeyValueStore) *chain.Node {
 	n := chain.NewNode(store, w.seq.NewState, w.opts()...)
 	// force the lazy initialisation now: memory := reinit(disk at restart)
@@ -177,7 +192,7 @@ func newWorld(c *hx.Ctx, seq *Seq) *world {
 			w.inner = memory.New()
 		}
 	}
-	w.s = chain.NewNode(sdb, seq.NewState)
+	w.s = chain.NewNode(sdb, seq.NewState, w.seqOpts()...)
 	if seq.Boundary {
 		// register the base blocks of the decode window
 		for n := w.lo; n <= uint64(w.baseH); n++ {
@@ -237,7 +252,11 @@ func (w *world) build(s *chain.Node, from, key uint64) (*blkInfo, error) {
 	if err != nil {
 		return nil, err
 	}
-	return w.register(b, []uint64{from, key}, chain.F(0x5000+w.classCtr)), nil
+	bi := w.register(b, []uint64{from, key}, chain.F(0x5000+w.classCtr))
+	if num != 0 {
+		bi.slot = 1000 + w.classCtr
+	}
+	return bi, nil
 }
 
 // exec runs one operation on the node under test; returns the error the operation returned.
@@ -261,7 +280,11 @@ func (w *world) exec(o Op) error {
 		}
 		return w.s.BC.RevertHead()
 	case "P":
-		w.mops = append(w.mops, fmt.Sprintf("P %x", o.E))
+		kh := 0 // PruneUpto deletes the Deprecated* history buckets only: new-state history entries stay
+		if w.seq.NewState {
+			kh = 1
+		}
+		w.mops = append(w.mops, fmt.Sprintf("P %d %x", kh, o.E))
 		_, _, err := pruner.PruneUpto(context.Background(), w.fd, o.E, 1)
 		return err
 	case "L":
